@@ -371,7 +371,7 @@ def run(ctx):
         replay_config(ctx, rp, "pool", "pool_n3", dict(N=3))
         replay_config(ctx, rp, "pool", "pool_nat", dict(N=3, Roots=3, NatSteps=4, MaxSteps=1, NatKinds='{"sd", "pr", "rd"}',
                                                         Kinds='{"po", "pr", "pw", "px", "rd", "pa", "aw"}'))
-        replay_config(ctx, rp, "accum", "accum_pa", dict(Kinds='{"ha", "hm", "hd", "hw", "hf", "aw", "pa"}'))
+        replay_config(ctx, rp, "accum", "accum_pa", dict(MaxSteps=2, Kinds='{"ha", "hm", "hd", "hw", "hf", "aw", "pa"}'))
         replay_config(ctx, rp, "accum", "accum_n4", dict(N=4, Roots=1, NatSteps=1))
         # bigger bounds on the specification only
         tlc_only(ctx, "resolve", "resolve_s3_all", S3)
